@@ -1473,6 +1473,15 @@ class Tensor(object):
 
         for i in range(key_length):
             if not isinstance(key[i], slice) and not hasattr(key[i], "__len__"):
+                if not self.batch:
+                    if not -self.shape[i] <= key[i] < self.shape[i]:
+                        raise IndexError(
+                            "index {} is out of bounds for dimension {} with size {}".format(
+                                key[i], i, self.shape[i]
+                            )
+                        )
+                    if key[i] < 0:  # slice(-1, 0) would be empty
+                        key[i] += self.shape[i]
                 key[i] = slice(key[i], key[i] + 1)
 
             subtract_core = torch.zeros_like(self.cores[i])
